@@ -234,6 +234,18 @@ func spellings(t *Ty, v *Lit, site string) []*Case {
 		out = append(out, mk("var-in-list2", L(t), nil, []VarDef{{"v", t, nil}}, lList(lVar("v"), v), one(j)))
 		out = append(out, mk("var-in-obj", N("W"), nil, []VarDef{{"v", t, nil}}, lObj("w", lVar("v")), one(j)))
 		out = append(out, mk("var-in-obj-as-item", L(N("W")), nil, []VarDef{{"v", t, nil}}, lObj("w", lVar("v")), one(j)))
+		// a variable whose type is weaker than the location somewhere inside (e.g. [Int] for [Int!]):
+		// its value is handed to the resolver as it is, so only the validator stands in the way
+		if dn := deepNullable(t); dn.String() != nt.String() {
+			out = append(out, mk("var-deep-nullable", t, nil, []VarDef{{"v", dn, nil}}, lVar("v"), one(j)))
+			out = append(out, mk("var-deep-nullable-in-list", L(t), nil, []VarDef{{"v", dn, nil}}, lList(lVar("v")), one(j)))
+		}
+		// CoerceVariableValues only looks at declared variables: a value for an undeclared one is ignored
+		out = append(out, mk("var-extra-undeclared", t, nil, []VarDef{{"v", t, nil}}, lVar("v"), map[string]interface{}{"v": j, "undeclared": j}))
+		out = append(out, mk("lit-extra-undeclared", t, nil, nil, v, map[string]interface{}{"v": j}))
+		// a variable whose type is not an input type / does not exist never gets as far as coercion
+		out = append(out, mk("var-output-type", t, nil, []VarDef{{"v", N("Query"), nil}}, lVar("v"), one(j)))
+		out = append(out, mk("var-unknown-type", t, nil, []VarDef{{"v", L(N("Nowhere")), nil}}, lVar("v"), one(j)))
 		if v.K == 'i' && v.Int.IsInt64() {
 			out = append(out, mk("var-goint", t, nil, []VarDef{{"v", t, nil}}, lVar("v"), one(goInt(v.Int.Int64()))))
 		}
@@ -253,6 +265,8 @@ func spellings(t *Ty, v *Lit, site string) []*Case {
 		out = append(out, mk("argdef-var-absent", t, d, []VarDef{{"u", nt, nil}}, lVar("u"), nil))
 		out = append(out, mk("argdef-var-null", t, d, []VarDef{{"u", nt, nil}}, lVar("u"), map[string]interface{}{"u": nil}))
 		out = append(out, mk("argdef-overridden", t, d, nil, v, nil))
+		// a required variable without a value is an error even where a default would be at hand
+		out = append(out, mk("argdef-var-nn-absent", t, d, []VarDef{{"u", NN(nt), nil}}, lVar("u"), nil))
 		if d != schema.Null {
 			wd := &NamedDef{Name: "W", Hook: "none", Fields: []InDef{{"k", N("Int"), 1}, {"w", t, d}}}
 			regd := newRegistry(wd)
@@ -273,6 +287,7 @@ func spellings(t *Ty, v *Lit, site string) []*Case {
 	out = append(out, mk("var-absent", t, nil, []VarDef{{"u", t, nil}}, lVar("u"), nil))
 	out = append(out, mk("var-absent-in-list", L(t), nil, []VarDef{{"u", t, nil}}, lList(lVar("u")), nil))
 	out = append(out, mk("var-absent-in-obj", N("W"), nil, []VarDef{{"u", t, nil}}, lObj("w", lVar("u")), nil))
+	out = append(out, mk("var-nn-absent-in-obj", N("W"), nil, []VarDef{{"u", NN(nt), nil}}, lObj("w", lVar("u")), nil))
 	return out
 }
 
@@ -367,8 +382,21 @@ func (g *rgen) fit(t *Ty, depth int) *Lit {
 	return o
 }
 
+// deepNullable removes every non-null wrapper, at every level.
+func deepNullable(t *Ty) *Ty {
+	switch t.K {
+	case '!':
+		return deepNullable(t.Elem)
+	case 'l':
+		return L(deepNullable(t.Elem))
+	}
+	return t
+}
+
 func (g *rgen) perturb(t *Ty) *Ty {
-	switch g.r.Intn(12) {
+	switch g.r.Intn(13) {
+	case 12:
+		return deepNullable(t)
 	case 0:
 		if !t.isNN() {
 			return NN(t)
@@ -469,6 +497,11 @@ func randomCase(r *rng.R, site string) *Case {
 	}
 	c.VarDefs = g.vds
 	c.Vars = g.vars
+	if r.Chance(1, 6) { // a value for a variable the operation does not declare
+		if j, ok := rng.Pick(r, g.uni).json(); ok {
+			c.Vars["undeclared"] = j
+		}
+	}
 	return c
 }
 
